@@ -180,7 +180,12 @@ def environment(S, cls_name):
             l.items[:] = []
         k = S.int("kept")
         S.assume(z3.And(k.z >= 0, k.z <= z3.Length(l.prefix)))
-        tree.fields["openElements"] = ListV([], prefix=z3.Extract(l.prefix, 0, k.z))
+        base = l.view[0] if getattr(l, "view", None) is not None else l.prefix
+        nl = ListV([], prefix=z3.Extract(base, 0, k.z))
+        if getattr(l, "view", None) is not None:
+            S.assume(k.z <= l.view[1])
+        nl.view = (base, k.z)
+        tree.fields["openElements"] = nl
         return None
 
     def push(I, args, kwargs):
